@@ -22,3 +22,18 @@ func init() {
 		Assume: []string{"a panic in any goroutine kills the worker process and is attributed to the input journalled before the call", "hang = all gtree goroutines blocked with unchanged ids in two observations >= 300 ms apart"},
 		Rule: "cases: degenerate list, blank-only family, size extremes (64 KiB lines, 20k-100k roots, depth 600-2000), grammar-aware mutations of valid documents, raw biased byte strings, programmatic trees with hostile names; each through every entry point (output text/branch/json/yaml/toml/dry-run, walk, mkdir dry-run and real in a jail, verify strict/non-strict) x {simple, massive}; one evaluation = one real call watched for panic (recover + process death), deadlock (goroutine monitor) and, for blank-only input, empty output and nil; distinct key = hash(input bytes, entry point, mode); non-trivial = non-empty input"}
 }
+
+func init() {
+	props["C15"] = propCfg{Level: "exploration",
+		Assume: []string{"the speller (gen/spelling.go) writes the same forest in every notation"},
+		Rule: "cases: every labeled forest up to the node bound x 40 seeded (quick) / all 576 (thorough) spellings of the notation family + leading-blank variants, plus seeded random forests with bullet-like and blank-edged names x 8 spellings; one evaluation = all outputs (text, JSON, YAML, TOML for one root, dry-run, walk rows, strict verify verdict against a fixed directory; mkdir snapshot for a few spellings) of one spelling compared with the canonical spelling's; distinct key = hash(forest, spelling); non-trivial = merged forest has >= 2 nodes"}
+}
+
+func init() {
+	props["C04"] = propCfg{Level: "exploration",
+		Assume: []string{"encoding/json, gopkg.in/yaml.v3 and go-toml/v2 decoders are the 'standard decoders'; yaml.v3 resolving a plain << as !!merge while still yielding the string is accepted"},
+		Rule: "cases: every labeled forest up to the node bound (positional child indexing), every code point U+0000-U+02FF plus selected others at the start/middle/end of a name, and seeded random forests over quoting-hostile, Unicode, control, bullet, blank-edged and path-hostile alphabets (From-Root additionally with LF/CR names) x {JSON, YAML, TOML(single root)} x {From-Markdown, From-Root}; one evaluation = one real call decoded by the standard decoder and compared with the merged model forest; distinct key = hash(forest, entry point, format); non-trivial = >= 2 nodes after merge"}
+	props["C05"] = propCfg{Level: "exploration",
+		Assume: []string{"names are single path elements (the statement's precondition for Path)"},
+		Rule: "cases: every labeled forest up to the node bound x 3 branch tuples, plus seeded random forests to 60 nodes, through WalkFromMarkdown, WalkFromRoot, WalkIterFromRoot and the three deprecated aliases; visit sequences compared with the model rows (Row, Branch, Name, Level, Path, HasChild) and with the text output's lines; a failing callback / break at every visit index k (exhaustive part) must stop after exactly k+1 visits and return the callback's error unchanged; distinct key = hash(forest, entry, branch tuple | stop index); non-trivial = >= 3 nodes, or any stop-at-k case"}
+}
